@@ -30,7 +30,7 @@ import ZodbModel.Resolve
 namespace ZodbModel.StoreRules
 open ZodbModel.Resolve
 
-abbrev TxnId := Nat
+scoped notation "TxnId" => Nat
 
 structure Rev where
   oid : Oid
@@ -321,6 +321,42 @@ inductive Reachable (E : Env) (k : Kind) (base : Hist) : Sys → Prop
 def run (E : Env) (s : Sys) : List Op → Sys
   | [] => s
   | op :: ops => run E (step E s op).sys ops
+
+/-! ### specification predicates (C03 / C10 are stated with these) -/
+
+/-- `r.data` is the class's three-way merge: the resolver's result on (state at the writer's base
+    serial, state at the committed serial `ct`, state the writer wants), re-pickled after the
+    writer's class meta data -/
+def Merged (E : Env) (ls : Oid → Tid → Option Record) (ct : Tid) (r : Rev) : Prop :=
+  ∃ old committed m, ls r.oid r.base = some old ∧ ls r.oid ct = some committed ∧
+    E.resolver r.wanted.hdr.cls (loadState E.ci old.state) (loadState E.ci committed.state)
+      (loadState E.ci r.wanted.state) = .ok m ∧
+    r.data = { hdr := r.wanted.hdr, state := dumpState m }
+
+/-- revision `r`, written on top of the committed history `hist` (over `base`), is not a lost
+    update: there is no earlier revision of the object, or the writer started from the immediately
+    preceding revision and its bytes were stored unchanged, or the stored bytes are the merge -/
+def RevOK (E : Env) (k : Kind) (hist base : Hist) (r : Rev) : Prop :=
+  match currentTid (viewOf k hist base) r.oid with
+  | none => r.data = r.wanted ∧ r.resolved = false
+  | some ct =>
+    (r.base = ct ∧ r.data = r.wanted ∧ r.resolved = false) ∨
+    (r.base ≠ ct ∧ r.resolved = true ∧ Merged E (loadSerialK k hist base) ct r)
+
+/-- every committed revision is `RevOK` with respect to the transactions committed before it -/
+def NLU (E : Env) (k : Kind) (base : Hist) : Hist → Prop
+  | [] => True
+  | t :: older => (∀ r ∈ t.recs, RevOK E k older base r) ∧ NLU E k base older
+
+/-- every committed transaction's readCurrent declarations were current when it committed -/
+def RC (k : Kind) (base : Hist) : Hist → Prop
+  | [] => True
+  | t :: older => (∀ p ∈ t.checked, currentTid (viewOf k older base) p.1 = some p.2) ∧ RC k base older
+
+/-- does the kind attempt conflict resolution at all -/
+def Kind.resolves : Kind → Bool
+  | .simple .mapping => false
+  | _ => true
 
 /-! ### a connection's view of one object it wrote (C10: "discards its own copy") -/
 
